@@ -168,6 +168,60 @@ def mc_and_replay(ck, prop, tier, vh, trace=False):
         shutil.rmtree(d, ignore_errors=True)
 
 
+def prog_mc_and_replay(ck, prop, tier, vh):
+    """CpuProgMC: all programs of <= Depth instructions over the width-switch alphabet; every maximal behaviour is replayed."""
+    import re
+    from vlib import SPEC
+    depth = 3 if tier == "quick" else 4
+    base = open(os.path.join(SPEC, "CpuProgMC.cfg")).read()
+    cfg = re.sub(r"Depth = \d+", "Depth = %d" % depth, base)
+    r = run_tlc("CpuProgMC", cfg, workers=12, heap="12g", timeout=6000)
+    if r.violated:
+        raise Infra("Cpu65816.tla violates %s along a program" % r.violated)
+    ck.add_tlc("CpuProgMC (all programs of %d instructions over 24 templates x 4 start states)" % depth, r, "TypeOK, MemOK on every intermediate state")
+    r2 = run_tlc("CpuProgMC", cfg.replace("DoExport = FALSE", "DoExport = TRUE"), workers=12, heap="12g", timeout=6000)
+    progs = r2.json_prints("PROG")
+    if not progs:
+        raise Infra("CpuProgMC exported no programs")
+    d = scratch_dir("vprg")
+    try:
+        nchunks = 12
+        parts = [progs[i::nchunks] for i in range(nchunks)]
+
+        def one(i):
+            def f():
+                ip = os.path.join(d, "p%d.ndjson" % i)
+                with open(ip, "w") as fh:
+                    for e in parts[i]:
+                        fh.write(json.dumps(e) + "\n")
+                tr = os.path.join(d, "pr%d.ndjson" % i)
+                out, _ = run_vh(vh, ["cpu", "progreplay", ip, tr], env_extra={"VERIF_SEED": str(seed() * 91 + i)})
+                rr = run_tlc("CpuTrace", "CpuTrace.cfg", workers=1, files={"cpu.ndjson": tr}, heap="3g", timeout=6000)
+                if rr.violated:
+                    raise Infra("CpuTrace (program replay) chunk %d: %s" % (i, rr.violated))
+                os.remove(tr)
+                return json.loads(out.strip().splitlines()[-1]), rr
+            return f
+        res = parallel([one(i) for i in range(nchunks)], nthreads=12)
+        bads = []
+        nev = 0
+        for i, (info, rr) in enumerate(res):
+            nev += info["events"]
+            ck.cov["states"] += rr.distinct
+            ck.cov["transitions"] += rr.generated
+            for b in rr.json_prints("BAD"):
+                b["chunk"] = i
+                bads.append(b)
+        ck.add_part("replay of CpuProgMC programs on both real interpreters", kind="tlc-trace", programs=len(progs), events=nev)
+        ck.sample({"replayed_program": progs[len(progs) // 3]})
+        ck.cov["traces_validated_against_impl"] += len(progs)
+        ck.cov["evaluations"] += nev
+        ck.cov["distinct_nontrivial"] += nev
+        return bads
+    finally:
+        shutil.rmtree(d, ignore_errors=True)
+
+
 def report_bads(ck, prop, bads, where):
     known = {}
     for b in bads:
@@ -203,6 +257,8 @@ def run(prop, tier, replay):
     ]
     vh = build_harness()
     report_bads(ck, prop, mc_and_replay(ck, prop, tier, vh), "CpuMC replay")
+    if prop in ("C01", "C02"):
+        report_bads(ck, prop, prog_mc_and_replay(ck, prop, tier, vh), "CpuProgMC replay")
     step_checks(ck, prop, tier, vh)
     if prop == "C12":
         import runloop
